@@ -22,6 +22,8 @@ def main():
     tier = a.tier if a.tier in ("quick", "thorough") else "quick"
     seed = int(os.environ.get("VERIF_SEED", "20260929") or 0)
     pid = a.pid.upper()
+    abort_file = os.path.join(core.VERIF, "out", "abort-%d" % os.getpid())
+    os.environ["YPV_ABORT_FILE"] = abort_file
     try:
         mod = importlib.import_module("harness.props." + pid.lower())
         chk = core.Check(pid, tier, seed, getattr(mod, "RULE", ""), replay=a.replay)
@@ -37,6 +39,10 @@ def main():
         print("INFRASTRUCTURE-ERROR property=%s unexpected harness failure" % pid)
         traceback.print_exc()
         sys.exit(2)
+    try:
+        os.remove(abort_file)
+    except OSError:
+        pass
     sys.exit(rc)
 
 
